@@ -5,7 +5,8 @@ import vf, abicheck, abitie
 
 LEVEL = "proof"
 READY = True
-THEOREMS = ["C01_flat_types_exact", "C01_flatten_is_canonical"]
+THEOREMS = ["C01_flat_types_exact", "C01_flatten_is_canonical", "C01_size_is_canonical", "C01_alignment_is_canonical",
+            "C01_field_offsets_are_canonical", "C01_payload_offset_is_canonical"]
 KINDS = ("lower_flat", "lower_to_memory", "lift_from_memory")
 
 
@@ -18,7 +19,7 @@ def run(ctx):
     ctx.assumptions += [
         "oracle: Canon/Spec.v transcribes CanonicalABI.md (strings as bytes, floats as bit patterns, unbounded memory, bump/preset allocator)",
         "contract: Abi/Sem.v gives each Instruction the meaning its doc comment promises; backends are judged against it by C04/C14 and the native legs",
-        "proved: flat form exact for all types and bounds + resolves to the spec's flatten at pw 4/8; the value-level equality with Spec.lower_flat/store/load is evaluated on the real streams (statement_evaluations), not proved",
+        "proved: flat form exact for all types and bounds + resolves to the spec's flatten at pw 4/8; sizes, alignments, field and payload offsets of wit-parser's symbolic SizeAlign = the spec's at pw 4/8 for all types; the value-level equality with Spec.lower_flat/store/load is evaluated on the real streams (statement_evaluations), not proved",
     ]
     ctx.proof_leg(["theories/Props/C01.vo"], ["Props.C01"], THEOREMS)
     abicheck.run(ctx, "C01", KINDS, n_quick=60, n_thorough=3000, nvals_quick=4, nvals_thorough=12)
@@ -31,6 +32,6 @@ def replay(ctx, path):
 META = {
     "engine": "coq+absdump",
     "technique": "Coq model of abi.rs + wit-parser flattening proved exact and equal to the spec's flatten (induction over types, bounded-buffer merge lemma); token-for-token correspondence of real instruction streams with the extracted model; Coq-extracted interpreter + canonical-ABI oracle evaluate the value-level statement on every real stream",
-    "text": "Theorems (all types, all bounds, pw 4 and 8): flat_types = ideal flattening iff it fits, and = the canonical flatten. The Coq model of the generator reproduces every real instruction stream explored token for token (lower_flat / lower_to_memory / lift_from_memory, element-wise and canonical list paths, and the flat lift and offset-carrying paths through call); the value-level statement (stream under Sem = Spec.lower_flat / Spec.store; lifting Spec's encoding returns the value) is executed on the real streams for random values incl. NaN payloads, extremes, empty lists, every variant case.",
-    "note": "Proved part: flattening only (partial w.r.t. the full C01 statement, see Props/C01.v header). Trusted: Coq kernel; Spec.v as transcription of the spec; Sem.v as the instruction contract; extraction + ocaml/abi_driver.ml (printer/parser of the dump grammar, value generator); absdump's recording Bindgen.",
+    "text": "Theorems (all types, all bounds, pw 4 and 8): flat_types = ideal flattening iff it fits, and = the canonical flatten; every size, alignment, field offset and payload offset the generator uses = the canonical layout at both widths. The Coq model of the generator reproduces every real instruction stream explored token for token (lower_flat / lower_to_memory / lift_from_memory, element-wise and canonical list paths, and the flat lift and offset-carrying paths through call); the value-level statement (stream under Sem = Spec.lower_flat / Spec.store; lifting Spec's encoding returns the value) is executed on the real streams for random values incl. NaN payloads, extremes, empty lists, every variant case.",
+    "note": "Proved part: flattening and memory layout (partial w.r.t. the full C01 statement, see Props/C01.v header). Trusted: Coq kernel; Spec.v as transcription of the spec; Sem.v as the instruction contract; extraction + ocaml/abi_driver.ml (printer/parser of the dump grammar, value generator); absdump's recording Bindgen.",
 }
